@@ -66,6 +66,7 @@ pub fn run_burst(focus: &'static str, seed: u64, index: u64) -> CaseOut {
     let mut findings = Vec::new();
     // keep the event log; slow the worker only (so that the queue really fills)
     let r = recorder();
+    rt::clear_abort();
     r.keep.store(true, Ordering::SeqCst);
     r.track_acked.store(false, Ordering::SeqCst);
     let _ = r.take_events();
@@ -298,6 +299,7 @@ pub fn run_shutdown(focus: &'static str, seed: u64, index: u64) -> CaseOut {
     let mut counts = Counts::default();
     let mut findings = Vec::new();
     let r = recorder();
+    rt::clear_abort();
     r.keep.store(true, Ordering::SeqCst);
     r.track_acked.store(true, Ordering::SeqCst);
     let _ = r.take_events();
@@ -322,6 +324,7 @@ pub fn run_shutdown(focus: &'static str, seed: u64, index: u64) -> CaseOut {
             while !go.load(Ordering::SeqCst) { thread::yield_now(); }
             let mut after = 0;
             for n in 0..4000u64 {
+                if rt::aborted() { break; }
                 let key = rng.range(1, 6);
                 let known_down = shutdown_returned.load(Ordering::SeqCst);
                 let before = rt::stamp();
@@ -456,6 +459,7 @@ pub fn run_stall(focus: &'static str, seed: u64, index: u64) -> CaseOut {
     let mut counts = Counts::default();
     let mut findings = Vec::new();
     let r = recorder();
+    rt::clear_abort();
     r.keep.store(false, Ordering::SeqCst);
     let _ = r.take_events();
     sched().release_all();
@@ -591,6 +595,7 @@ pub fn run_stress(focus: &'static str, seed: u64, index: u64, args: &Args) -> Ca
     let mut counts = Counts::default();
     let mut findings = Vec::new();
     let r = recorder();
+    rt::clear_abort();
     r.keep.store(false, Ordering::SeqCst);
     r.track_acked.store(true, Ordering::SeqCst);
     r.check_weight_bounds.store(false, Ordering::SeqCst);
@@ -617,6 +622,7 @@ pub fn run_stress(focus: &'static str, seed: u64, index: u64, args: &Args) -> Ca
             let mut client = Client::new(t as u64 + 1);
             let mut abnormal: Vec<Waited> = Vec::new();
             for n in 0..ops {
+                if rt::aborted() { break; }
                 let key = rng.range(1, keys);
                 let t0 = Instant::now();
                 if shut && n == ops / 2 { cache.shutdown(); }
@@ -668,7 +674,7 @@ pub fn run_stress(focus: &'static str, seed: u64, index: u64, args: &Args) -> Ca
                         Waited::Deadlock(d) => fail(&mut findings, &["C18"], "C18/deadlock/await".into(), d, case.clone()),
                         Waited::ReadyPending => fail(&mut findings, &["C12"], "C12/ready-pending".into(), "an acknowledgement resolved to Pending".into(), case.clone()),
                         Waited::LostWakeup => fail(&mut findings, &["C12", "C18"], "C12/lost-wakeup".into(), "an acknowledged command never woke its task".into(), case.clone()),
-                        Waited::WorkerDead => { let site = rt::panics_since(panic_mark).last().map(rt::panic_site).unwrap_or_else(|| "no-panic".into()); fail(&mut findings, &["C17", "C18"], format!("C17/worker-dead/{}/stress", site), "the command worker died".into(), case.clone()) }
+                        Waited::WorkerDead => { let site = rt::panics_since(panic_mark).last().map(rt::panic_site).unwrap_or_else(|| "no-panic".into()); fail(&mut findings, &["C17", "C18"], format!("C17/worker-dead/{}/cmd={}/stress", site, rt::last_command_kind()), "the command worker died".into(), case.clone()) }
                         Waited::Inconclusive(reason) => findings.push(Finding { props: vec!["C18"], signature: "inconclusive/await".into(), detail: reason, witness: J::Null, inconclusive: true }),
                         Waited::Ready(_) => {}
                     }
